@@ -26,6 +26,8 @@ struct Tree {
     files: BTreeMap<String, (Vec<u8>, String)>,
     dirs: Vec<String>,
     layers: Vec<(String, String)>,
+    /// symbolic links: rel path -> link text (only the garbage variants have any)
+    links: Vec<(String, String)>,
 }
 
 fn plist_dict(entries: &[(String, String)]) -> String {
@@ -40,7 +42,7 @@ fn plist_dict(entries: &[(String, String)]) -> String {
 
 fn gen_tree(seed: u64, extra: usize, dpos: usize, up: bool) -> Tree {
     let mut rng = Rng::new(seed);
-    let mut t = Tree { files: BTreeMap::new(), dirs: vec![], layers: vec![] };
+    let mut t = Tree { files: BTreeMap::new(), dirs: vec![], layers: vec![], links: vec![] };
     let mut put = |t: &mut Tree, p: &str, bytes: String, tok: String| {
         t.files.insert(p.to_string(), (bytes.into_bytes(), tok));
     };
@@ -75,7 +77,12 @@ fn gen_tree(seed: u64, extra: usize, dpos: usize, up: bool) -> Tree {
         format!("N1;{}", gids.iter().map(|g| g.as_ref().map(|s| hexs(s)).unwrap_or("~".into())).collect::<Vec<_>>().join("+")),
     );
     // lib.plist with object libs for some of the identified guidelines (and one for nobody)
-    let mut lib = vec![("com.a".to_string(), "<integer>1</integer>".to_string()), ("com.b".to_string(), "<string>s</string>".to_string())];
+    let mut lib = vec![
+        ("com.a".to_string(), "<integer>1</integer>".to_string()),
+        ("com.b".to_string(), "<string>s</string>".to_string()),
+        // a requested part REFERRING to a name in an (often un-requested) other part
+        ("com.ref".to_string(), "<string>a.txt</string>".to_string()),
+    ];
     let mut ol_ids: Vec<String> = Vec::new();
     for g in gids.iter().flatten() {
         if rng.chance(2, 3) {
@@ -100,7 +107,7 @@ fn gen_tree(seed: u64, extra: usize, dpos: usize, up: bool) -> Tree {
         plist_dict(&lib),
         format!(
             "B{}{}",
-            ["com.a", "com.b"].iter().map(|k| hexs(k)).collect::<Vec<_>>().join("+"),
+            ["com.a", "com.b", "com.ref"].iter().map(|k| hexs(k)).collect::<Vec<_>>().join("+"),
             if with_ol { format!(";O{}", ol_ids.iter().map(|s| hexs(s)).collect::<Vec<_>>().join("+")) } else { String::new() }
         ),
     );
@@ -166,7 +173,7 @@ fn gen_tree(seed: u64, extra: usize, dpos: usize, up: bool) -> Tree {
             put(
                 &mut t,
                 &format!("{}/{}", d, file),
-                format!("<?xml version=\"1.0\" encoding=\"UTF-8\"?>\n<glyph name=\"{}\" format=\"2\"><advance width=\"5\"/></glyph>\n", n),
+                format!("<?xml version=\"1.0\" encoding=\"UTF-8\"?>\n<glyph name=\"{}\" format=\"2\"><advance width=\"5\"/><image fileName=\"i1.png\"/></glyph>\n", n),
                 "X1".into(),
             );
         }
@@ -202,6 +209,11 @@ fn write_tree(dir: &Path, t: &Tree) {
         std::fs::create_dir_all(path.parent().unwrap()).unwrap();
         std::fs::write(path, bytes).unwrap();
     }
+    for (p, target) in &t.links {
+        let path = dir.join(p);
+        std::fs::create_dir_all(path.parent().unwrap()).unwrap();
+        std::os::unix::fs::symlink(target, path).unwrap();
+    }
 }
 
 fn tree_tok(t: &Tree) -> String {
@@ -219,6 +231,9 @@ fn tree_tok(t: &Tree) -> String {
     let mut parts: Vec<String> = dirs.iter().map(|d| format!("{}:d", hexs(d))).collect();
     for (p, (_, tok)) in &t.files {
         parts.push(format!("{}:f:{}", hexs(p), tok));
+    }
+    for (p, _) in &t.links {
+        parts.push(format!("{}:l", hexs(p)));
     }
     parts.join(",")
 }
@@ -357,8 +372,8 @@ impl Req {
     }
 }
 
-fn garbage(t: &Tree, r: &Req) -> Tree {
-    let mut g = Tree { files: t.files.clone(), dirs: t.dirs.clone(), layers: t.layers.clone() };
+fn garbage(t: &Tree, r: &Req, gk: u32) -> Tree {
+    let mut g = Tree { files: t.files.clone(), dirs: t.dirs.clone(), layers: t.layers.clone(), links: vec![] };
     let junk = |g: &mut Tree, p: &str| {
         if g.files.contains_key(p) {
             g.files.insert(p.to_string(), (b"\x00\xff<not a plist".to_vec(), "Z".into()));
@@ -393,6 +408,50 @@ fn garbage(t: &Tree, r: &Req) -> Tree {
                     g.dirs.push(d.clone());
                 } else {
                     junk(&mut g, &k);
+                }
+            }
+        }
+    }
+    // round 5: damage of another KIND - the entry itself changes kind, at exactly the names the requested parts refer
+    // to (image fileName of the glyphs, the data file named in the lib) and at the files / directories of un-selected
+    // layers: 1 file -> directory, 2 file -> dangling symlink, 3 file -> symlink loop, 4 directory -> plain file
+    if gk != 0 {
+        let mut victims: Vec<String> = Vec::new();
+        let mut victim_dirs: Vec<String> = Vec::new();
+        if r.sw & 32 == 0 {
+            victims.extend(g.files.keys().filter(|k| k.starts_with("images/")).cloned());
+            victim_dirs.push("images".into());
+        }
+        if r.sw & 16 == 0 {
+            victims.extend(g.files.keys().filter(|k| k.as_str() == "data/a.txt").cloned());
+            victim_dirs.push("data".into());
+        }
+        for (n, d) in &t.layers {
+            if !r.selects(n, d) {
+                victims.extend(g.files.keys().filter(|k| k.starts_with(&format!("{}/", d)) && k.ends_with(".glif")).cloned());
+                victim_dirs.push(d.clone());
+            }
+        }
+        match gk {
+            1 | 2 | 3 => {
+                for v in victims {
+                    g.files.remove(&v);
+                    match gk {
+                        1 => g.dirs.push(v),
+                        2 => g.links.push((v, "nowhere/missing".into())),
+                        _ => {
+                            let own = v.rsplit('/').next().unwrap().to_string();
+                            g.links.push((v, own));
+                        }
+                    }
+                }
+            }
+            _ => {
+                for d in victim_dirs {
+                    let below = format!("{}/", d);
+                    g.files.retain(|k, _| !k.starts_with(&below));
+                    g.dirs.retain(|k| k != &d && !k.starts_with(&below));
+                    g.files.insert(d, (b"a plain file where a directory was".to_vec(), "R".into()));
                 }
             }
         }
@@ -461,7 +520,7 @@ pub fn observe(toks: &[&str], scratch: &Path) -> String {
     write_tree(&dir_intact, &t);
     let full = load_desc(&dir_intact, None);
     let part = load_desc(&dir_intact, Some(&req));
-    let g = garbage(&t, &req);
+    let g = garbage(&t, &req, field(toks, "gk").parse().unwrap_or(0));
     write_tree(&dir_intact, &g);
     let garb = load_desc(&dir_intact, Some(&req));
     rm_rf(&dir_intact);
@@ -535,6 +594,28 @@ pub fn gen(tier: &str, seed: u64, out: &mut dyn Write) {
         let toks: Vec<&str> = recipe.split(' ').collect();
         let obs = observe(&toks, &scratch);
         writeln!(out, "C17 {} => {}", recipe, obs).unwrap();
+    }
+    // round 5: entry-KIND damage of un-requested parts at the names requested parts refer to
+    for gk in 1..=4u32 {
+        for ti in 0..2 {
+            let tseed2 = rng.next() % 1_000_000;
+            for &sw in &[0u32, 1, 16, 32, 47, 31, 15, 63] {
+                for q in ["L1", "D1", "Fn", "Fx"] {
+                    let mut calls = vec!["N".to_string()];
+                    for (bit, p) in ["l", "g", "k", "f", "a", "i"].iter().enumerate() {
+                        calls.push(format!("{}{}", p, if sw & (1 << bit) != 0 { 1 } else { 0 }));
+                    }
+                    calls.push(q.to_string());
+                    let recipe = format!(
+                        "tree={} extra={} sw=0 shape=0 pick=1 miss=0 dpos={} up=0 gk={} seq={}",
+                        tseed2, 2 + ti, ti, gk, calls.join(".")
+                    );
+                    let toks: Vec<&str> = recipe.split(' ').collect();
+                    let obs = observe(&toks, &scratch);
+                    writeln!(out, "C17 {} => {}", recipe, obs).unwrap();
+                }
+            }
+        }
     }
     // layer COUNTS around the thresholds of the standard sorting routines, default layer first / in the middle / last,
     // full and partial loads (order is compared)
